@@ -689,19 +689,56 @@ def post_c12(outputs, all_lines):
     return fails, len(dig) // 2
 
 
+def widen_c05(panel_names, tier, seed):
+    """search around a broken correspondence: every (mode prefix, A, B) of the panel's alphabet,
+    every episode at least one poll long, every idle-delay class"""
+    rnd = random.Random(seed * 31 + 5)
+    lines = []
+    for p in each_panel():
+        if p.name not in panel_names:
+            continue
+        A = alphabet(p, rnd, small=True)
+        modes = [[]] + [u for u in A if u[0] in ("lut,quick", "refresh,quick", "lut,full")]
+        k = 0
+        for m in modes:
+            for a in A:
+                for b in A:
+                    for sched in ("1,1,1,1,1,1,1,1,1,1,1,1,1,1", "3,2,1,3,2,1,3,2,1,3,2,1,3,2"):
+                        lines.append(PN.line(f"w05-{p.name}-{k}", p, ["new"] + m + a + b, sched=sched, delay=rnd.choice(["none", "0", "7"])))
+                        k += 1
+    return lines
+
+
+def widen_hist(panel_names, tier, seed):
+    """search around a broken correspondence for the history properties: all histories of length
+    <= 3 whose first unit is a mode-setting one, and all of length 2, with a probe"""
+    rnd = random.Random(seed * 31 + 2)
+    lines = []
+    for p in each_panel():
+        if p.name not in panel_names:
+            continue
+        A = alphabet(p, rnd, small=True)
+        modes = [u for u in A if u[0].split(",")[0] in ("lut", "refresh", "bg", "wake", "border")]
+        hs = [[u, v] for u in A for v in A] + [[m, u, v] for m in modes for u in A for v in A]
+        for i, h in enumerate(hs):
+            ops = ["new"] + [o for u in h for o in u] + [f"upd,pos:{p.frame()}", "disp"]
+            lines.append(PN.line(f"wh-{p.name}-{i}", p, ops, sched=sched_for(rnd)))
+    return lines
+
+
 def _mk(gen, props, view, rule, feats=("v3",), assumptions=()):
     return {"props": props, "view": view, "gen": gen, "rule": rule, "feats": list(feats), "assumptions": list(assumptions)}
 
 
 PROPS = {
     "C01": _mk(gen_c01, ["C01"], "logical", "every full-frame entry point of every panel (both 2.13in features) from a fresh driver with zero / position-coded / PRNG / all-ones buffers (thorough: + one-bit buffers at first, last and seam positions), followed by display; oracle: controller-model planes vs the panel's documented plane and encoding; non-trivial = scenarios whose buffer is not constant", feats=("v3", "v2")),
-    "C02": _mk(gen_c02, ["C02"], "logical", "all histories of length <= 2 (quick; sampled to 120 / 40 pairs per small / large panel) or <= 4 (thorough, sampled) over the per-panel alphabet of protocol-respecting units, then a probe update_frame with a position-coded image; oracle: planes after the probe = the documented image at the panel origin"),
+    "C02": dict(widen="widen_hist", **_mk(gen_c02, ["C02"], "logical", "all histories of length <= 2 (quick; sampled to 120 / 40 pairs per small / large panel) or <= 4 (thorough, sampled) over the per-panel alphabet of protocol-respecting units, then a probe update_frame with a position-coded image; oracle: planes after the probe = the documented image at the panel origin")),
     "C04": dict(_mk(gen_c04, ["C04"], "raw", "every unit of every panel's alphabet (and construction itself): a fault injected at every command/parameter transfer and at both ends + 5 interior points of every bulk burst (sampled to 10 per op quick / 60 thorough; fully exhaustive on 1in02, 1in54c, 2in13bc in thorough), followed by wake_up, a full-frame update and display; a fault-free twin per history; oracle: error reported, no transfer after the failed one, no panic, controller state after recovery = twin's"), post="post_c04", ctx=True),
-    "C05": _mk(gen_c05, ["C05"], "raw", "ordered pairs of protocol units per panel x busy durations {0,1,3} (quick) / 0..7 (thorough) for every episode x idle-delay {None,0,1,250}; plus explicit wait after every unit; oracle: monitor over polls/delays/commands"),
+    "C05": dict(widen="widen_c05", **_mk(gen_c05, ["C05"], "raw", "ordered pairs of protocol units per panel x busy durations {0,1,3} (quick) / 0..7 (thorough) for every episode x idle-delay {None,0,1,250}; plus explicit wait after every unit; oracle: monitor over polls/delays/commands")),
     "C06": _mk(gen_c06, ["C06"], "logical", "every partial entry point x boundary windows (single byte, single row, each edge, full panel, x>=256, y around 256) + random aligned windows (quick 4-20, thorough 40-300 per panel; all aligned x,w on panels <= 152 px wide), planes pre-filled with PRNG data so that any byte outside the window that changes is seen"),
     "C07": _mk(gen_c07, ["C07"], "logical", "every panel x every background colour x {fresh, after clear, after sleep/wake, after a partial update} (thorough: + 6 random units); oracle: planes after clear_frame"),
     "C08": _mk(gen_c08, ["C08"], "logical", "[prefix; sleep; wake_up; suffix] with prefix/suffix from the alphabet (sampled), wake_up twice without sleep, three sleep/wake cycles; oracle: last transfer of sleep, reset pulse at wake_up, register writes of wake_up vs construction for the current settings"),
-    "C09": _mk(gen_c09, ["C09"], "logical", "the C02 histories; oracle: controller-model snapshot (asleep / initialised / powered) at every refresh trigger"),
+    "C09": dict(widen="widen_hist", **_mk(gen_c09, ["C09"], "logical", "the C02 histories; oracle: controller-model snapshot (asleep / initialised / powered) at every refresh trigger")),
     "C10": _mk(gen_c10, ["C10"], "raw", "every unit of every panel's alphabet + mixed sequences with all idle-delay settings + user buffers of 0,1,4095,4096,4097,8192,8193 bytes through every full-frame entry point; oracle: D/C discipline, transfer sizes, logical stream = the program's"),
     "C11": _mk(gen_c11, ["C11"], "raw", "every panel x {new, new+wake, sleep+wake, wake twice, clear+wake} x idle-delay {None,0,1,250} + the operations that re-initialise internally (2in9_v2 update_new_frame, 2in9d first partial update, 2in13_v2 set_refresh), both 2.13in features", feats=("v3", "v2")),
     "C12": dict(_mk(gen_c12, ["C12"], "raw", "histories up to length 2 (quick) / 3 (thorough) each run twice: buffers left intact vs every buffer complemented as soon as the borrowing call returns; oracle: the two wire traces are equal"), post="post_c12"),
